@@ -21,7 +21,7 @@ META = {
                   "decoder of the whole stream is the monitor.",
     "level_note": "Trusted: Coq kernel, extraction, OCaml driver, Rust harness (scripted AsyncRead, Counting codec wrapper), BytesMut "
                   "modelled as a byte list (capacity/reserve not modelled; the harness flags a read that is offered less than LW room).",
-    "rule": "stream c13enum: for each codec (lines over {61,0d,0a,ff}; lp, lpd over {00,01,02,61,ff}; bytes over {61,62}) every string of "
+    "rule": "stream c13enum: for each codec (lines over {61,0d,0a,ff}; lp, lpd, lps over {00,01,02,61,ff}; bytes over {61,62}) every string of "
             "length <= L, every composition into non-empty chunks, every subset of reads preceded by one Pending (sampled above length "
             "Lp), no I/O error or one I/O error before any read; plus explicit z / empty-chunk EOF markers followed by junk. "
             "stream c13rand: random streams of 1..20 KiB (lines with lines up to 12 KiB, CRLF, invalid UTF-8; lp frames incl. bad "
@@ -35,7 +35,7 @@ META = {
                     "codecs are stateless functions of the buffer (LinesCodec, BytesCodec and the harness' LpCodec are)"],
 }
 
-ALPHA = {"lines": ["61", "0d", "0a", "ff"], "lp": ["00", "01", "02", "61", "ff"], "lpd": ["00", "01", "02", "61", "ff"],
+ALPHA = {"lines": ["61", "0d", "0a", "ff"], "lp": ["00", "01", "02", "61", "ff"], "lpd": ["00", "01", "02", "61", "ff"], "lps": ["00", "01", "02", "61", "ff"],
          "bytes": ["61", "62"]}
 
 
@@ -91,8 +91,8 @@ def reference(codec, s):
             tail = tail[:-1]
         if tail:
             ef.append("IO:" + blob(tail) if is_utf8(tail) else "IE")
-        return fr, ef, False
-    if codec in ("lp", "lpd"):
+        return fr, ef, None
+    if codec in ("lp", "lpd", "lps"):
         fr = []
         i = 0
         while i < len(s):
@@ -105,9 +105,14 @@ def reference(codec, s):
                 i += 1 + n
             else:
                 break
+        # third component: the item the codec goes on answering at end of stream, for ever (None: it says None)
+        #   lpd (provided decode_eof) on a truncated frame: "bytes remaining" without consuming;
+        #   lps (trailer): an end marker once nothing is left — on an empty buffer
+        if codec == "lps":
+            return fr, (["IT"] if i < len(s) else []), "IS"
         if i < len(s):
-            return (fr, ["IT"], False) if codec == "lp" else (fr, [], True)
-        return fr, [], False
+            return (fr, ["IT"], None) if codec == "lp" else (fr, [], "IR")
+        return fr, [], None
     raise ValueError(codec)
 
 
@@ -149,9 +154,10 @@ def monitor(case, impl, model):
         return pos == len(s) and items[k:] == ["N"]
     fr, ef, endless = reference(codec, s)
     if endless:
-        # provided decode_eof on a truncated frame: the codec answers Err forever, Framed relays it
-        n = len(items) - len(fr)
-        return len(ents) == fuel_of(toks) and n > 0 and items == fr + ["IR"] * n
+        # the codec goes on answering at end of stream (provided decode_eof on a truncated frame: an error, without consuming;
+        # a trailer from an empty buffer): Framed relays it on every poll and never says None
+        n = len(items) - len(fr) - len(ef)
+        return len(ents) == fuel_of(toks) and n > 0 and items == fr + ef + [endless] * n
     return items == fr + ef + ["N"]
 
 
@@ -252,7 +258,7 @@ def enum_cases(codec, L, Lp, rng):
 def eof_marker_cases():
     """explicit 0-byte reads (z, empty chunk) in the middle of a script: everything after them is never read"""
     out = []
-    for codec in ("lines", "lp", "lpd", "bytes"):
+    for codec in ("lines", "lp", "lpd", "lps", "bytes"):
         a = ALPHA[codec]
         for pre in ([], ["c" + a[0]], ["c" + a[0] + a[-1], "p"], ["c" + a[len(a) // 2] + a[0]], ["p", "c" + a[1]]):
             for mark in ("z", "c"):
@@ -288,7 +294,7 @@ def rand_stream(codec, rng, size):
             del out[-1]
             if rng.random() < 0.3:
                 out += b"\r"
-    elif codec in ("lp", "lpd"):
+    elif codec in ("lp", "lpd", "lps"):
         while len(out) < size:
             r = rng.random()
             if r < 0.04:
@@ -343,6 +349,7 @@ def zl(h):
 COQ_CODEC = {"lines": ("Lines.decode Lines.decode_eof", {"IE": "Item IErr"}, "Item (IOk %s)"),
              "lp": ("lp_decode lp_decode_eof", {"IH": "Item LBadHdr", "IT": "Item LTrunc", "IR": "Item LRemaining"}, "Item (LOk %s)"),
              "lpd": ("lp_decode lpd_decode_eof", {"IH": "Item LBadHdr", "IT": "Item LTrunc", "IR": "Item LRemaining"}, "Item (LOk %s)"),
+             "lps": ("lp_decode lps_decode_eof", {"IH": "Item LBadHdr", "IT": "Item LTrunc", "IS": "Item LEnd"}, "Item (LOk %s)"),
              "bytes": ("bytes_decode bytes_decode_eof", {"IR": "Item BRemaining"}, "Item (BOk %s)")}
 
 
@@ -374,8 +381,8 @@ def streams(ctx):
     rng = ctx.rng
     enum = eof_marker_cases()
     # (codec, max length, full Pending product up to)
-    plan = [("lines", 5, 3), ("lp", 4, 3), ("lpd", 3, 2), ("bytes", 6, 3)] if quick else \
-           [("lines", 6, 4), ("lp", 5, 4), ("lpd", 4, 3), ("bytes", 8, 4)]
+    plan = [("lines", 5, 3), ("lp", 4, 3), ("lpd", 3, 2), ("lps", 3, 3), ("bytes", 6, 3)] if quick else \
+           [("lines", 6, 4), ("lp", 5, 4), ("lpd", 4, 3), ("lps", 4, 4), ("bytes", 8, 4)]
     for codec, L, Lp in plan:
         enum += enum_cases(codec, L, Lp, rng)
     s1 = Stream("c13enum", "c13", enum, monitor=monitor, nontrivial=nontrivial, shrink=shrink, compare=compare_exact,
@@ -396,7 +403,7 @@ def streams(ctx):
                 describe="%d random streams delivered in chunks of up to 9000 bytes; the mock hands over what fits into the room "
                          "Framed offers (so the real reserve/capacity logic decides the chunking); frames compared" % len(big))
     # Framed built from parts with a pre-filled read buffer, and the state-preserving conversions before every poll
-    base = [c for c in enum if c.split(";")[0] in ("lines", "lp", "bytes")]
+    base = [c for c in enum if c.split(";")[0] in ("lines", "lp", "lps", "bytes")]
     rng.shuffle(base)
     parts = []
     for c in base[:1500 if quick else 20000] + rnd[:60 if quick else 600]:
